@@ -857,6 +857,10 @@ static void do_op(struct op *p)
 	} else if (!strcmp(n, "validate")) {
 		struct timespec now = iv_now;
 		alog(n, 0, 0, 0, 0, now.tv_sec * NSEC + now.tv_nsec, 0);
+	} else if (!strcmp(n, "warp_epoch")) {
+		/* this loop has been round a[0] more times already (see ivh_priv.c) */
+		extern void ivh_warp_epoch(unsigned int);
+		ivh_warp_epoch((unsigned int)p->a[0]);
 	} else if (!strcmp(n, "invalidate")) {
 		iv_invalidate_now();
 		alog(n, 0, 0, 0, 0, vnow, 0);
